@@ -356,7 +356,7 @@ impl World {
                     match res {
                         Ok(l) => learned += l.len(),
                         Err(e) => {
-                            if self.is(&["C01", "C08"]) {
+                            if self.is(&["C01"]) {
                                 viol!(self, "meld-succeeds", "meld-err", "meld failed without any storage fault: {}", e);
                             }
                             return Err(Stop::Inconclusive(format!("meld failed: {}", e)));
@@ -417,7 +417,7 @@ impl World {
         match self.call("update", || m.update(o2))? {
             Ok(_) => {}
             Err(e) => {
-                if self.is(&["C04", "C08"]) {
+                if self.is(&["C04"]) {
                     viol!(self, "update-accepts-wellformed", "update-err", "update of a well-formed document failed: {}", e);
                 }
                 return Err(Stop::Inconclusive(format!("update failed: {}", e)));
@@ -630,6 +630,19 @@ impl World {
                     viol!(self, "commit-keeps-document", if arr_conf_before { "commit-changed-doc-arrayconflict" } else { "commit-changed-doc" },
                         "commit changed the visible document (array in conflict before: {}):\n before={}\n after={}", arr_conf_before, trunc(&before["doc"]), trunc(&after["doc"]));
                 }
+                // A held-back foreign block may become complete through this very commit (same
+                // objects, same pack): the committing replica learns that at its next refresh, a
+                // fresh one at once. That is outside C03 ("the state the committing replica
+                // exposed") and C01/C02 (which speak of refreshed replicas): compare only when
+                // nothing is held back.
+                let held_back = api::block_status(self.live(r)).values().any(|s| s != "applied");
+                if after["staging"] == json!(false) {
+                    self.replicas[r].clean_digest = Some(after.clone());
+                }
+                if held_back {
+                    self.bump("probe.commit_sync_skipped_held_back");
+                    return Ok(());
+                }
                 // C03: a fresh replica on the same storage sees the same state
                 if self.is(&["C03", "C17"]) {
                     self.check_reopen_equals_live(r, &after, "after-commit")?;
@@ -642,7 +655,7 @@ impl World {
                 let failed = writes.iter().any(|w| *w.2 == WriteOutcome::Failed);
                 self.bump("probe.commit_failed");
                 if !failed {
-                    if self.is(&["C08", "C09", "C03"]) {
+                    if self.is(&["C09", "C03"]) {
                         viol!(self, "commit-succeeds", "commit-err", "commit failed without any storage fault: {}", e);
                     }
                     return Err(Stop::Inconclusive(format!("commit failed without fault: {}", e)));
@@ -733,7 +746,7 @@ impl World {
             }
             Err(e) => {
                 let failed = log.iter().any(|c| matches!(c, Call::Write { outcome: WriteOutcome::Failed, .. }));
-                if !failed && self.is(&["C08", "C09"]) {
+                if !failed && self.is(&["C09"]) {
                     viol!(self, "meld-succeeds", "meld-err", "meld failed without any storage fault: {}", e);
                 }
             }
@@ -869,7 +882,7 @@ impl World {
         self.replicas[r].disk.take_log();
         if m_staging {
             self.bump("probe.refresh_with_stage");
-            if self.is(&["C15", "C08"]) {
+            if self.is(&["C15"]) {
                 let after = self.digest_of(r)?;
                 match &res {
                     Ok(()) => viol!(self, "refresh-refuses-with-stage", "refresh-dropped-stage", "{} succeeded although changes were staged", api_name),
@@ -897,7 +910,7 @@ impl World {
                 self.sync_point(r, api_name, Some(&after))
             }
             Err(e) => {
-                if self.is(&["C08", "C01", "C02"]) {
+                if self.is(&["C01", "C02"]) {
                     viol!(self, "refresh-succeeds", "refresh-err", "{} failed on undamaged storage: {}", api_name, e);
                 }
                 Err(Stop::Inconclusive(format!("{} failed: {}", api_name, e)))
@@ -922,7 +935,7 @@ impl World {
                 self.sync_point(r, "restart", None)
             }
             Err(e) => {
-                if self.is(&["C08", "C01", "C03", "C09"]) {
+                if self.is(&["C01", "C03", "C09"]) {
                     viol!(self, "open-succeeds", "open-err", "opening a replica on its own undamaged storage failed: {}", e);
                 }
                 Err(Stop::Inconclusive(format!("open failed: {}", e)))
@@ -955,7 +968,7 @@ impl World {
             return Ok(());
         }
         if let Err(e) = res {
-            if self.is(&["C14", "C08"]) {
+            if self.is(&["C14"]) {
                 viol!(self, "time-travel", "reload-until-err", "reload_until({:?}) failed: {}", cp.heads, e);
             }
             return Err(Stop::Inconclusive(format!("reload_until failed: {}", e)));
@@ -1185,7 +1198,7 @@ impl World {
         if after["staging"] == json!(true) && before["staging"] == json!(false) {
             self.bump("probe.snapshot_staged_something");
         }
-        if self.is(&["C12", "C08"]) {
+        if self.is(&["C12"]) {
             if let Err(e) = res {
                 viol!(self, "snapshot-succeeds", "snapshot-err", "stage_full_snapshot failed: {}", e);
             }
@@ -1214,11 +1227,7 @@ impl World {
         })?;
         self.replicas[r].model_doc = None;
         self.bump("probe.objop");
-        if let Err(e) = res {
-            if self.is(&["C08"]) {
-                viol!(self, "objop-succeeds", "objop-err", "object operation {} on {} failed: {}", kind, uuid, e);
-            }
-        }
+        let _ = res; // an error return is a legitimate outcome (C08 asks for a return, not for success)
         Ok(())
     }
 
